@@ -119,7 +119,9 @@ func (l *Loader) Next() (entry *BinEntry, err error) {
 			rtype := l.ReadByteP()
 			t = rtype
 		} else {
+			// a later chunk of a split value : it belongs to the same key, so it carries the key's expiry
 			t = l.lastEntry.Type
+			entry.ExpireAt = l.lastEntry.ExpireAt
 		}
 		entry.Type = t
 		switch t {
